@@ -64,7 +64,8 @@ type genWorld struct {
 	nonce     uint64
 	nextKey   int
 	nextChain int
-	optOut    map[int]bool // operators that started an opt-out
+	contStep  time.Duration // directed scenarios: block time step of the lock-step continuation (0 = one second)
+	optOut    map[int]bool  // operators that started an opt-out
 	directed  string
 	avs2      string       // a second, non-chain AVS (registered lazily) that operators opt into and out of
 	inAVS2    map[int]bool // operators currently opted into avs2
@@ -496,10 +497,15 @@ func (w *genWorld) roundTripWith(contBlocks int, directed bool) (res roundTripRe
 	}
 	// continued behaviour
 	coreReported := false
+	pend1, pend2 := len(readCore(c, c.Ctx).OptOuts), len(readCore(c2, c2.Ctx).OptOuts)
+	done1, done2 := -1, -1
 	for b := 0; b < contBlocks; b++ {
 		d := time.Duration(1+w.rng.Intn(3)) * EpochDuration(c.Cfg.EpochID) / 2
 		if directed {
 			d = time.Second // heights pass the completion height before the unbonding epochs do
+			if w.contStep != 0 {
+				d = w.contStep
+			}
 		}
 		r1 := c.EndAndBegin(d)
 		r2 := c2.EndAndBegin(d)
@@ -514,6 +520,12 @@ func (w *genWorld) roundTripWith(contBlocks int, directed bool) (res roundTripRe
 			res.contDiff = append(res.contDiff, fmt.Sprintf("block+%d validator updates %s vs %s", b, u1, u2))
 		}
 		k1, k2 := readCore(c, c.Ctx), readCore(c2, c2.Ctx)
+		if pend1 > 0 && done1 < 0 && len(k1.OptOuts) == 0 {
+			done1 = b
+		}
+		if pend2 > 0 && done2 < 0 && len(k2.OptOuts) == 0 {
+			done2 = b
+		}
 		if len(k2.Undelegations) < len(k1.Undelegations) {
 			res.contDiff = append(res.contDiff, fmt.Sprintf("block+%d (height %d): the re-imported chain released %d undelegation(s) that the original chain still holds for x/dogfood (original %v, re-imported %v)",
 				b, c.Header.Height, len(k1.Undelegations)-len(k2.Undelegations), k1.Undelegations, k2.Undelegations))
@@ -528,6 +540,15 @@ func (w *genWorld) roundTripWith(contBlocks int, directed bool) (res roundTripRe
 			coreReported = true
 			res.contDiff = append(res.contDiff, fmt.Sprintf("block+%d core state differs: original {%s} reimported {%s}", b, s1, s2))
 		}
+	}
+	if (pend1 > 0 || pend2 > 0) && done1 != done2 {
+		f := func(d int) string {
+			if d < 0 {
+				return "not within the run"
+			}
+			return fmt.Sprintf("in block+%d", d)
+		}
+		res.contDiff = append([]string{fmt.Sprintf("the pending opt-out completes %s on the original chain and %s on the re-imported chain", f(done1), f(done2))}, res.contDiff...)
 	}
 	return
 }
